@@ -1,0 +1,13 @@
+//go:build verif
+
+package engine
+
+// Contracts checked by /verif (govc). Comment-only file: it adds no code.
+
+// ---- C05: chart templates cannot read the process environment (funcs.go)
+
+//@ func funcMap
+//@   props C05
+//@   ensures [no-env] result != nil && !has(result, "env") && !has(result, "expandenv")
+//@   loop 1 invariant [no-env] f != nil && !has(f, "env") && !has(f, "expandenv")
+//@   loop 1 invariant [extra-has-no-env] !has(extra, "env") && !has(extra, "expandenv") && extra != f
